@@ -228,12 +228,16 @@ SUBSELS = ["*", "*ion", "Velocity", "Pos*", "?cceleration", "Nope"]
 
 
 @harness(pre=["0 <= op <= 9", "0 <= sel <= 5", "0 <= et <= 2", "0 <= es <= 1",
-              "(-2 <= a) & (a <= 4) & (-2 <= b) & (b <= 4) & (-2 <= c) & (c <= 4) & (-2 <= ei) & (ei <= 4)"], post="_", timeout=400,
+              "(-2 <= a) & (a <= 4) & (-2 <= b) & (b <= 4) & (-2 <= c) & (c <= 4) & (-2 <= ei) & (ei <= 4)",
+              # `&` realizes both operands (one path per value pair): the bit-test shard runs on 0..2 / 0..3
+              "op != 9 or ((0 <= a) & (a <= 2) & (0 <= b) & (b <= 2) & (0 <= c) & (c <= 2) & (0 <= ei) & (ei <= 3))"],
+         post="_", timeout=400,
          note="sub-field (4-part) selectors through the real LLUDPMessageLogEntry.matches: `ObjectUpdate.ObjectData.ObjectData.<glob> "
               "<op> <literal>` on a decoded dict-valued variable with three symbolic members (the decoded view is placed in the "
               "block's decode cache, which is where matches() reads it from): true iff SOME member selected by the glob satisfies "
               "the comparison (not just the first one the glob hits), with and without short-circuit; the bare existence form is "
-              "true iff the glob selects any member; never raises",
+              "true iff the glob selects any member; never raises (members and literal in -2..4; for the bit-test operator `&`, whose "
+              "operands are realized, members 0..2 and literal 0..3)",
          covers=(_L + "LLUDPMessageLogEntry.matches", _L + "AbstractMessageLogEntry._val_matches"))
 def subfield_glob_filter(op: int, sel: int, a: int, b: int, c: int, et: int, ei: int, es: int) -> bool:
     import fnmatch
